@@ -36,7 +36,7 @@ fn main() {
             let reps: Vec<Report> = match p {
                 "C01" => vec![o_text::c01(&c, &tier)],
                 "C02" => c02::oracle(&c, seed, &tier),
-                "C03" => c03::oracle(seed, &tier),
+                "C03" => { let mut v = c03::oracle(seed, &tier); v.push(c03::dyn_edges(&c, &tier)); v }
                 "C04" => c04o::oracle(seed, &tier),
                 "C05" => vec![o_text::c05(&c, &tier)],
                 "C06" => c06::oracle_c06(seed, &tier),
